@@ -947,7 +947,7 @@ def E(v):
 
 
 def leaf(rng, hashable=False, subs=True):
-    names = HASHABLE_LEAVES if hashable else SCALARS
+    names = HASHABLE_LEAVES if hashable else (SCALARS if rng.random() < 0.85 else CONTAINERS)
     b = rng.choice(names)
     r = rng.random()
     if not hashable and r < 0.08:
@@ -1490,6 +1490,16 @@ def gen_cases(tier, rng, n):
                     if o:
                         c["opts"] = o
                     cases.append(c)
+        # every user subclass of an origin as the declared type
+        for b in ORIGINS:
+            for i in range(len(c12.SUBS.get(b, []))):
+                for kind in SOURCES[b]:
+                    o = rng.choice([{}, {}, {"nec": True}, {"ndl": True}])
+                    c = {"ty": {"t": b, "sub": i + 1}, "via": rng.choice(["transform", "field", "param", "return"]),
+                         "value": rng.choice(pools()[kind]), "enums": ENUMS}
+                    if o:
+                        c["opts"] = o
+                    cases.append(c)
         for k in range(len(ENUMS)):
             for kind in ("enum_plain", "enum_mixin", "str_misc", "int", "str_word", "float"):
                 cases.append({"ty": {"enum": k}, "via": "transform", "value": rng.choice(pools()[kind]), "enums": ENUMS})
@@ -1514,6 +1524,14 @@ def conv_stale(j) -> bool:
     acc = []
     _walk_json_values(j, acc)
     return any(isinstance(x, str) and _NEG_OFFSET.search(x) for x in acc)
+
+
+def _has_key(j, key) -> bool:
+    if isinstance(j, dict):
+        return key in j or any(_has_key(v, key) for v in j.values())
+    if isinstance(j, list):
+        return any(_has_key(v, key) for v in j)
+    return False
 
 
 def _shape(d, depth=0) -> str:
@@ -1582,7 +1600,7 @@ class C01(Check):
         "data-class instances as inputs, abstract origins, `contains`, @utype.apply, custom hooks, typed `addition`, aliases are "
         "outside the model (oracle only)",
     ]
-    budget = {"quick": 4000, "thorough": 60000}
+    budget = {"quick": 4500, "thorough": 150000}
     search_budget = {"quick": 3000, "thorough": 20000}
 
     def cases(self, tier, rng, n):
@@ -1653,12 +1671,12 @@ class C01(Check):
         info = v.get("out") or v.get("out_collect")
         if not info:
             return None
-        return self.classify_info(info)
+        return self.classify_info(info, case)
 
-    def classify_info(self, info):
+    def classify_info(self, info, case):
         if info.get("kind") == "union" and isinstance(info.get("extra"), list):
             # the value came out of one of the conditions: the finding class of the condition that explains it
-            ids = [self.classify_info(b) for b in info["extra"]]
+            ids = [self.classify_info(b, case) for b in info["extra"]]
             ids = [i for i in ids if i]
             return ids[0] if ids else None
         node = info["node"]
@@ -1677,9 +1695,21 @@ class C01(Check):
                 and any(c[0] == "decimal_places" for c in (cons or [])):
             return "decimal-places-pads-after-regex"
         if info["kind"] == "type" and base and base.get("sub"):
+            # subclass-result-plain: only the three converter branches (and the Decimal rounding validator) of the finding
             plain = {"Decimal": "Decimal", "UUID": "UUID"}.get(base["t"], base["t"])
-            if info["got"] == plain and base["t"] in ("int", "time", "timedelta", "Decimal"):
-                return "subclass-result-plain"
+            if info["got"] != plain:
+                return None
+            vals = []
+            _walk_json_values(case["value"], vals)
+            texts = [x for x in vals if isinstance(x, str)]
+            if base["t"] == "int" and any(x.lower() in c12.TRUE_WORDS + c12.FALSE_WORDS for x in texts):
+                return "subclass-result-plain"            # to_integer: the literals 0 / 1 for the boolean words
+            if base["t"] == "time" and (texts or _has_key(case["value"], "dt")):
+                return "subclass-result-plain"            # to_time: data.time() / to_datetime(text).time()
+            if base["t"] == "timedelta" and texts:
+                return "subclass-result-plain"            # to_timedelta: sign * t(**kw) for a duration text
+            if base["t"] == "Decimal" and any(c[0] == "decimal_places" for c in (cons or [])):
+                return "subclass-result-plain"            # round() in the decimal_places validator
         return None
 
     def neighbours(self, case, rng):
